@@ -272,6 +272,31 @@ func VerifH_C06_foreach_cancel_queued() {
 	verifrt.Assert(sub.live == 0, "no item run is still in flight after Close")
 	verifrt.Assert(verifrt.LiveGoroutines() == 0, "no goroutine of the loop step survives Close")
 	c := h.completion()
+	if c != nil && c.prev == "failed" && c.out == "error" {
+		// C08: the failure report of a loop closed with queued items still conforms to what it declares -
+		// 'data' holds results (of items that ran and succeeded) and nothing else, 'errors' messages
+		verifrt.Reach("failed-after-close")
+		m, ok := c.data.(map[string]any)
+		verifrt.Assert(ok, "error output is an object")
+		data, ok := verifIntKeyed(m["data"])
+		verifrt.Assert(ok, "error output has the 'data' map of the other results")
+		for i, v := range data {
+			found := false
+			for _, cl := range sub.calls {
+				if i >= 0 && i < n && verifrt.Same(cl.item, items[i]) && cl.kind == 0 && v == any(cl.out) {
+					found = true
+				}
+			}
+			verifrt.Assert(v != nil && found, "every entry of the failure report's data is the success output of the run of that item")
+		}
+		errs, ok := verifIntKeyed(m["errors"])
+		verifrt.Assert(ok, "error output has the declared 'errors' map")
+		for i := range errs {
+			_, both := data[i]
+			verifrt.Assert(!both, "no item is reported both as failed and as a result")
+		}
+		return
+	}
 	if c == nil || c.out != "success" {
 		verifrt.Reach("no-success")
 		return
